@@ -135,6 +135,52 @@ def gen_big_budget(rng) -> dict:
                 init=None, aux=None, pop0=0, apps=apps, estimates=[rng.choice(est) if est else None for _ in range(len(apps) if est else 0)])
 
 
+def gen_huge_budget(rng) -> dict:
+    """Budgets beyond 2^31 / 2^32 (Python ints are unbounded: the clauses hold for all of them); stub operators report
+    5e8 evaluations each; the budget is the only limit (2^63 is never reached: the script ends the run)."""
+    B = rng.choice([2_400_000_000, 5_000_000_000, 2**31 - 1, 2**31, 2**31 + 1, 2**32 - 1, 2**32, 2**32 + 1, 2**63])
+    c = 500_000_000
+    n_apps = min(B // c + 4, 16)
+    apps, rid = [], 0
+    for i in range(n_apps):
+        evs = [["count", c]]
+        if i % 2 == 1 or rng.random() < 0.3:
+            evs.append(["result", rid, rng.randrange(8), rng.choice(VALUES)])
+            rid += 1
+        apps.append(dict(events=evs, ret=i + 1))
+    est = rng.choice([None, c, 0])
+    return dict(kind="scripted", style="huge-budget", n_ops=rng.randint(1, 2), n_qubits=3, max_generations=None, max_evals=B, criterion=None,
+                init=None, aux=None, pop0=0, apps=apps, estimates=[est] * (n_apps + 2) if est is not None else [])
+
+
+def gen_after_failure(rng) -> dict:
+    """Solver reuse around a failed solve: a solve that returns, then a solve in which an operator raises in generation
+    1..3, then a solve with max_generations as the only limit, then one with a budget — all with the same solver object.
+    Every clause is evaluated on every solve (generations / limits count from the start of THAT solve)."""
+    n_ops = rng.randint(1, 3)
+
+    def gens(n, boom_after=None):
+        apps, rid = [], 0
+        for g in range(n):
+            for k in range(n_ops):
+                evs = [["count", rng.choice([1, 2, 4])]]
+                if k == n_ops - 1:
+                    evs.append(["result", rid, rng.randrange(8), rng.choice(VALUES)])
+                    rid += 1
+                apps.append(dict(events=evs, ret=len(apps) + 1))
+            if boom_after is not None and g + 1 == boom_after:
+                apps.append(dict(events=[["count", 1]], ret={"raise": "Boom"}))
+                break
+        return apps
+
+    base = dict(kind="scripted", style="after-failure", n_ops=n_ops, n_qubits=3, init=None, aux=None, pop0=0, estimates=[])
+    g_ok, g_boom, G = rng.randint(1, 3), rng.randint(1, 3), rng.randint(2, 6)
+    last = dict(base, max_generations=rng.choice([None, 4]), max_evals=rng.choice([5, 9, 14]), criterion=None, apps=gens(8))
+    third = dict(base, max_generations=G, max_evals=None, criterion=None, apps=gens(G + 2), then=last)
+    second = dict(base, max_generations=rng.choice([g_boom + 2, 9]), max_evals=None, criterion=None, apps=gens(g_boom + 1, boom_after=g_boom), then=third)
+    return dict(base, max_generations=g_ok, max_evals=None, criterion=None, apps=gens(g_ok + 1), then=second)
+
+
 def expand_case(case: dict) -> dict:
     """The runnable form of a compactly stored case (key "long" -> the applications it stands for)."""
     if "long" not in case or "apps" in case:
@@ -358,9 +404,12 @@ def oracle_c12(limits: dict, obs: dict, protocol_only: bool = True) -> list:
                 bad.append(("start-after-max-generations", f"operator {it[1]} started with {seen} generations evaluated, max_generations={G}"))
                 break
         if B is None and crit is None and "ok" in out:
-            gens = out["ok"]["generations"]
-            if (single and gens != G) or gens < G:
-                bad.append(("max-generations-not-exact", f"max_generations={G} is the only limit but {gens} generations were evaluated"))
+            if (single and n_results != G) or n_results < G:
+                bad.append(("max-generations-not-exact", f"max_generations={G} is the only limit but {n_results} generations were evaluated in this solve (result.generations={out['ok']['generations']})"))
+    if "ok" in out and out["ok"]["generations"] != n_results:
+        bad.append(("generations-not-this-solve", f"result.generations={out['ok']['generations']} but {n_results} populations were evaluated (result reports) in this solve"))
+    if G is not None:
+        pass
     # --- budget
     if B is not None:
         reported = 0
@@ -445,10 +494,15 @@ def run_scripted_case(ctx, pid: str, case: dict, strict_multi: bool):
     except Exception as e:  # the harness objects themselves failed: report as an implementation exception
         ctx.violation("oracle", f"harness-exception-{type(e).__name__}", f"scripted run raised outside the solver: {type(e).__name__}: {e}", stored)
         return []
-    solves = [(case, obs_all)] + ([(case["then"], obs_all["then"])] if "then" in obs_all else [])
+    solves, c_cur, o_cur = [], case, obs_all
+    while True:
+        solves.append((c_cur, o_cur))
+        if "then" not in o_cur:
+            break
+        c_cur, o_cur = c_cur["then"], o_cur["then"]
     res = []
     for which, (c, obs) in enumerate(solves):
-        nth = "" if which == 0 else " (second solve with the same solver object, limits reassigned on solver.configuration)"
+        nth = "" if which == 0 else f" (solve #{which + 1} with the same solver object, limits reassigned on solver.configuration)"
         if c.get("real_criterion") is not None:   # the criterion script of the model = what the built-in criterion answered
             c = dict(c, criterion=[it[4] for it in obs["items"] if it[0] == "crit"])
             for t in obs.get("answer_types", []):
@@ -508,11 +562,19 @@ def run_evqe(setup: dict):
     out = []
     try:
         for which, problem in enumerate([None] + list(setup.get("more", []))):
+            fail_at = None
             if problem is not None:
                 rec.reset()
                 reg.reset()
-                call, parts = sk.evqe_problem(solver, setup, problem)
-            out.append(_record_one(solver, call, parts, rec, reg, setup, which))
+                fail_at = problem.get("fail_at")
+                call, parts = sk.evqe_problem(solver, setup, {k: v for k, v in problem.items() if k != "fail_at"})
+            if fail_at is not None:     # the backend stops answering after fail_at more evaluations: this solve raises
+                solver.verif_switch.arm(fail_at)
+            try:
+                out.append(_record_one(solver, call, parts, rec, reg, setup, which))
+            finally:
+                solver.verif_switch.disarm()
+            out[-1][2]["fail_at"] = fail_at
     finally:
         solver.configuration.parallel_executor.shutdown(wait=True)
     return out
@@ -702,7 +764,7 @@ def run_property(ctx, pid: str, strict_multi: bool, n_scripted, n_evqe, enum_eve
         scripted(gen_scripted(ctx.rng))
     # long runs: max_generations the only limit, around and beyond powers of two / typical buffer sizes; big budgets
     if ctx.quick:
-        gens = [129, 257, ctx.rng.choice([100, 127, 128, 200, 256, 300])]
+        gens = [129, 257, ctx.rng.choice([100, 127, 128, 200, 256, 300])]   # > 512: corpus/C05/long_history_600.json
     else:
         gens = LONG_GENERATIONS + [ctx.rng.randint(301, 2000) for _ in range(3)]
     for G in gens:
@@ -710,6 +772,10 @@ def run_property(ctx, pid: str, strict_multi: bool, n_scripted, n_evqe, enum_eve
         ctx.tally(f"long-run:max_generations={G}")
     for _ in range(ctx.n(6, 40)):
         scripted(gen_big_budget(ctx.rng))
+    for _ in range(ctx.n(10, 60)):
+        scripted(gen_huge_budget(ctx.rng))
+    for _ in range(ctx.n(12, 80)):
+        scripted(gen_after_failure(ctx.rng))
     if enum_events:
         n0 = len(glits)
         for c in enumerate_small(enum_events):
@@ -720,6 +786,14 @@ def run_property(ctx, pid: str, strict_multi: bool, n_scripted, n_evqe, enum_eve
         evqe(ctx, pid, sk.random_evqe_setup(ctx.rng, quick=ctx.quick, family="package" if i % 3 == 0 else None,
                                             plain_fitness=True if i % 3 == 1 else None,
                                             rich_assembly=(pid == "C05" and i % 3 == 2)), glits, kept, strict_multi)
+    # populations beyond typical task / batch limits (alignment of recorded values and individuals: C05)
+    if pid == "C05":
+        for n_pop in ([33, 65] if ctx.quick else [33, 40, 65, 33, 40, 65]):
+            evqe(ctx, pid, sk.random_evqe_setup(ctx.rng, quick=True, big_population=n_pop), glits, kept, strict_multi)
+            ctx.tally(f"evqe-population:{n_pop}")
+    # the solve after a solve during which the backend failed, same solver object
+    for i in range(ctx.n(3, 12)):
+        evqe(ctx, pid, sk.random_evqe_setup(ctx.rng, quick=True, family="package" if i % 2 == 0 else "evqe", failure=True), glits, kept, strict_multi)
     bad = core.model_mismatches(pid, IMPORTS, CHECKER[pid], glits, chunk=150)
     for i in bad[:5]:
         shown = None
@@ -743,7 +817,9 @@ def evqe(ctx, pid, setup, glits, kept, strict_multi):
     for obs, case, extra in solves:
         out = obs["outcome"]
         nth = "" if extra["which"] == 0 else f" (solve #{extra['which'] + 1} with the same solver object)"
-        if out.get("err") == "RunawayLoop":
+        if extra.get("fail_at") is not None and out.get("err") in ("BackendFailure", NOTHING) or (extra.get("fail_at") is not None and "ok" in out):
+            ctx.tally("evqe-solve-with-backend-failure:" + ("raised" if "err" in out else "finished-before-the-failure"))
+        elif out.get("err") == "RunawayLoop":
             ctx.violation("oracle", "loop-does-not-terminate", f"the solve did not stop: {out.get('msg')} although its limits (max_generations={setup.get('max_generations')}, "
                           f"max_circuit_evaluations={setup.get('max_evals')}, criterion={setup.get('criterion')}) must have ended it{nth}", replay,
                           detail=dict(items=_trim(obs["items"]), outcome=out, solve=extra["which"]))
